@@ -182,6 +182,19 @@ func VerifC17Accounting() {
 	vrt.Reach("end")
 }
 
+// c17onMap is a point right after the scheduler has decided to start a pass
+// (it reads the size table there): the harness lets a flush worker's failure
+// report arrive at that moment, i.e. while the pass is being built. The real
+// method is renamed to Map__real.
+var c17onMap func()
+
+func (x *counters) Map() map[oid.Address]uint64 {
+	if h := c17onMap; h != nil {
+		h()
+	}
+	return x.Map__real()
+}
+
 // VerifC17Scheduler: one pass of the flush scheduler over an arbitrary set of
 // cached objects with sizes around the batching limits offers every object
 // that is not in flight to the workers exactly once, and leaves no object
@@ -193,7 +206,20 @@ func VerifC17Scheduler() {
 	c.maxFlushBatchCount = 1 + vrt.Choice("batchCount", 2)
 	c.maxFlushBatchSize = 4 + uint64(vrt.Choice("batchSize", 2))*100
 	c17pre(c)
+	// a worker may report a failed flush while this pass is being built: the
+	// scheduler then gives the pending batch up, backs off and starts over
+	failure := vrt.Bool("aWorkerReportsFailureDuringThePass")
+	c17onMap = func() {
+		if failure {
+			failure = false
+			select {
+			case c.flushErrCh <- struct{}{}:
+			default:
+			}
+		}
+	}
 	blocked := vrt.UntilBlocked(c.flushScheduler)
+	c17onMap = nil
 	vrt.Assert(blocked, "scheduler keeps running")
 	var offered [c17N]int
 	for len(c.flushCh) > 0 {
